@@ -496,13 +496,39 @@ impl Drop for Wal {
 /// descriptor, allowing concurrent WAL appends to proceed.
 pub(crate) struct WalManager {
 	inner: parking_lot::RwLock<Wal>,
+	/// Segments holding the record of a batch that has been logged but not yet
+	/// applied to a memtable (segment number -> count). Such a segment must not
+	/// be released by a flush.
+	in_flight: parking_lot::Mutex<std::collections::BTreeMap<u64, usize>>,
 }
 
 impl WalManager {
 	pub(crate) fn new(wal: Wal) -> Self {
 		Self {
 			inner: parking_lot::RwLock::new(wal),
+			in_flight: parking_lot::Mutex::new(std::collections::BTreeMap::new()),
 		}
+	}
+
+	/// A batch was logged to `segment` and is about to be applied.
+	pub(crate) fn in_flight_begin(&self, segment: u64) {
+		*self.in_flight.lock().entry(segment).or_insert(0) += 1;
+	}
+
+	/// The batch logged to `segment` has been applied (or given up).
+	pub(crate) fn in_flight_end(&self, segment: u64) {
+		let mut g = self.in_flight.lock();
+		if let Some(n) = g.get_mut(&segment) {
+			*n -= 1;
+			if *n == 0 {
+				g.remove(&segment);
+			}
+		}
+	}
+
+	/// Oldest segment with a logged-but-unapplied batch.
+	pub(crate) fn oldest_in_flight(&self) -> Option<u64> {
+		self.in_flight.lock().keys().next().copied()
 	}
 
 	/// Syncs WAL data to disk using two-phase pattern:
